@@ -182,6 +182,30 @@ func scenarios(tier string, seed int64) []scenario {
 		}
 		out = append(out, sc)
 	}
+	// a client that reconnects from the same address and port after its connection has been closed (the listener
+	// closes first on undecoded ports and keeps the old connection in TIME-WAIT): the second connection is judged
+	// like any other
+	nrc := 12
+	if tier == "thorough" {
+		nrc = 200
+	}
+	for i := 0; i < nrc; i++ {
+		r := core.NewRng(seed, "C14/reconnect", i)
+		a := conn{Peer: 0, Sport: 25000 + i, Dport: []int{4444, 8080, 31337, 5000}[i%4], ISN: uint32(r.U64()), Segs: []int{r.Range(1, 30)}, Psh: 0, Fin: true}
+		b := a
+		b.ISN = []uint32{1<<31 - 1, uint32(r.U64()), a.ISN, 0}[i%4]
+		b.Segs = []int{r.Range(1, 30), r.Range(1, 30)}
+		b.Psh = 1
+		sc := scenario{Conns: []conn{a, b}, Kind: "reconnect-same-tuple"}
+		for j := 0; j < a.nframes(); j++ {
+			sc.Order = append(sc.Order, 0)
+		}
+		// the client's last ACK (of the listener's FIN) travels with its FIN here; one more ACK closes the first connection
+		for j := 0; j < b.nframes(); j++ {
+			sc.Order = append(sc.Order, 1)
+		}
+		out = append(out, sc)
+	}
 	// IPv4 identification values at the carry boundaries of the header checksum, per peer address: the child
 	// learns the listener's header constants from the SYN-ACK and sets the identification (verif hook) before
 	// each later step
@@ -217,6 +241,10 @@ func scenarios(tier string, seed int64) []scenario {
 		out = append(out, scenario{Conns: []conn{c}, Order: []int{0, 0, 0}, Park: true, Kind: "parked-handler"})
 	}
 	return out
+}
+
+func sameTuple(c conn, d *fr.Decoded, sc scenario) bool {
+	return int(d.Dport) == c.Sport && int(d.Sport) == c.Dport && d.IPDst != nil && d.IPDst.Equal(sc.peer(c.Peer))
 }
 
 func peerIP(i int) net.IP { return net.IPv4(198, 18, 5, byte(10+i)) }
@@ -328,6 +356,9 @@ func runScenario(k int, sc scenario) scnObs {
 				if len(d.Problems) > 0 || int(d.Dport) != c.Sport || int(d.Sport) != c.Dport || !d.IPDst.Equal(sc.peer(c.Peer)) {
 					continue
 				}
+				if st[i].next == 0 {
+					continue // this connection has not sent its SYN yet (a reconnect on the same tuple)
+				}
 				if d.Flags&(fr.SYN|fr.ACK) == fr.SYN|fr.ACK && !st[i].haveISN {
 					st[i].srvISN, st[i].haveISN = d.Seq, true
 					st[i].ack = d.Seq + 1
@@ -382,6 +413,16 @@ func runScenario(k int, sc scenario) scnObs {
 			}
 			s.sent += len(data)
 		default:
+			if sc.Kind == "reconnect-same-tuple" {
+				// the client closes only after it has seen the listener's FIN (the handler closes on its own
+				// goroutine), so that its FIN carries the last acknowledgment and the connection is finished
+				// on both sides before the reconnect
+				deadline := time.Now().Add(3 * time.Second)
+				for s.ack == s.srvISN+1 && time.Now().Before(deadline) {
+					time.Sleep(2 * time.Millisecond)
+					drain(step - 1)
+				}
+			}
 			t.Seq, t.Ack, t.Flags = c.ISN+1+uint32(s.sent), s.ack, fr.FIN|fr.ACK
 		}
 		s.next++
@@ -654,7 +695,7 @@ func (prop) Judge(b core.Batch, recs []core.Rec, exits []core.Exit) []core.Resul
 			mine := func() []*fr.Decoded {
 				var o []*fr.Decoded
 				for _, d := range fs {
-					if belongs(d) == ci {
+					if belongs(d) == ci || sameTuple(sc.Conns[ci], d, sc) {
 						o = append(o, d)
 					}
 				}
@@ -749,10 +790,21 @@ func (prop) Judge(b core.Batch, recs []core.Rec, exits []core.Exit) []core.Resul
 			} else {
 				firstPush = total
 			}
+			// a later connection on the same address/port tuple (a reconnect) owns the later event
+			skip := 0
+			for cj := 0; cj < ci; cj++ {
+				if o := sc.Conns[cj]; o.Peer == c.Peer && o.Sport == c.Sport && o.Dport == c.Dport {
+					skip++
+				}
+			}
 			var ev *evObs
 			for i := range ob.Events {
 				e := &ob.Events[i]
 				if e.SrcIP == sc.peer(c.Peer).String() && e.SrcPort == c.Sport && e.DstPort == c.Dport {
+					if skip > 0 {
+						skip--
+						continue
+					}
 					ev = e
 					break
 				}
